@@ -1,0 +1,20 @@
+//go:build verif
+// +build verif
+
+// Contracts for the verification machinery in /verif (comment-only; compiled only with -tags verif).
+package parser
+
+// The parser package keeps its own copies of the range constants; C09 demands that it accepts
+// exactly the set the validator accepts, so both copies are pinned to the same numbers.
+//@ invariant isver(php5RangeStart, 5, 0) && isver(php5RangeEnd, 5, 6) && isver(php7RangeStart, 7, 0) && isver(php7RangeEnd, 7, 4)
+//@ invariant ErrVersionOutOfRange != nil
+
+//@ func Parse
+//@   ensures old(config.Version != nil && !supported(config.Version)) ==> (result0 == nil && result1 == ErrVersionOutOfRange)
+//@   ensures old(config.Version == nil || supported(config.Version)) ==> result1 == nil
+//@   at-call NewLexer assert config.Version == nil ==> isver(arg1.Version, 7, 4)
+//@   at-call NewLexer assert config.Version != nil ==> arg1.Version == config.Version
+//@   at-call NewLexer assert arg0 == src && arg1.ErrorHandlerFunc == config.ErrorHandlerFunc
+//@   at-call NewParser assert arg1.ErrorHandlerFunc == config.ErrorHandlerFunc
+//@   at-call NewParser assert config.Version != nil ==> arg1.Version == config.Version
+//@   props C09, C06, C01
